@@ -98,6 +98,7 @@ EXPECTED_PROBES = [
     "fault.partition", "fault.loss", "fault.msgs_dropped_by_loss", "fault.msgs_dropped_by_partition",
     "probe.converged_despite_overtake", "probe.rs_concurrent_same_key",
     "probe.stale_write_skipped", "probe.ack_reflected_by_later_write",
+    "probe.craq_read_forwarded_after_recheck", "probe.craq_commit_left_key_dirty",
 ]
 SHRINK_SKIP = ("scheme", "klass", "mode", "resolver", "rcl", "wcl")
 
@@ -184,7 +185,7 @@ def gen(rng: random.Random, tier: str) -> dict:
         opts, w = ["reorder", "fifo", "distinct", "faulty"], [45, 10, 8, 20]
         if sc["craq"]:
             opts.append("craq-avoid")
-            w.append(17)
+            w.append(5)
         klass = rng.choices(opts, weights=w)[0]
         n_nodes = sc["n"]
     else:
@@ -231,12 +232,8 @@ def gen(rng: random.Random, tier: str) -> dict:
     span = (times[-1] if times else 0.0)
     # reads (chain only)
     if scheme == "chain":
-        mode = "any"
-        if sc["craq"] and klass in ("fifo", "distinct") and rng.random() < 0.7:
-            mode = rng.choice(["tail", "none"])
-        elif sc["craq"] and klass == "reorder" and rng.random() < 0.35:
-            mode = rng.choice(["tail", "none"])  # convergence under reordering not masked by the recorded CRAQ read findings
-        elif rng.random() < 0.15:
+        mode = "any"  # the CRAQ read defects are fixed: reads at every node in every class again
+        if rng.random() < 0.12:
             mode = rng.choice(["tail", "none"])
         sc["reads"] = mode
         if mode != "none":
@@ -543,7 +540,7 @@ class Ctx:
         if forwarded:
             self.flag("probe.craq_read_forwarded_dirty")
             if starts[0][2] is False:
-                self.flag("obs.craq_read_forwarded_after_recheck")  # only reachable with the read re-check repair
+                self.flag("probe.craq_read_forwarded_after_recheck")  # clean at arrival, dirty after the store read latency
         if craq and si != tail_i and v is not None:
             self.flag("probe.craq_read_served_clean_nontail")
         # did the read overlap an in-flight write to the key (any node still lacking some already-accepted value)?
@@ -735,6 +732,8 @@ def run(sc: dict) -> dict:
     # counters / probes
     if obs.overtaken_same_key:
         c["probe.same_key_overtake"] = 1
+    if obs.commit_left_key_dirty:
+        c["probe.craq_commit_left_key_dirty"] = 1
     if obs.overtaken_any:
         c["probe.any_overtake"] = 1
     if judged_conv and not diverged and obs.overtaken_same_key:
